@@ -3,6 +3,7 @@ import RedisGoModel.Props.C05FootHash
 import RedisGoModel.Props.C05FootSet
 import RedisGoModel.Props.C05FootList
 import RedisGoModel.Props.C05FootZSet
+import RedisGoModel.Props.C05FootRefuse
 import RedisGoModel.Props.C06Table
 /-! # C05 / C13 — the footprint theorems for the whole command table
 
@@ -19,6 +20,8 @@ correspondence runs is compared with it by the driver — `Driver/Exec.lean` `ch
   `env.now` may have been deleted (`RO` — Go's `CheckTTL` takes its own short write lock for that); `exec_readonly_live`: on the live
   view `Exec.live · env.now` nothing changes;
 * KEYS (`whole`): `exec_whole` — nothing but lazy deletion happens, and the reply is a function of the keyspace as a lookup function.
+* `exec_lockPlan` — the packaged statements also hold for `Exec.lockPlan env args`, the refinement the driver compares the Go lock
+  trace with: a call refused between the arity test and the first lock (`Exec.refused`) does not consult the keyspace (`table_refuse`).
 
 None of the `keys`/`none` statements needs `Db.WF` (they are about `Db.get`, the first binding of a key); the KEYS statements and the
 live-view form do.  `exec_footprint` is the packaged form (`Foot.FootOk`), from which `Exec.cmdBlock_wf` (Stage 3) is derived.
@@ -29,7 +32,7 @@ open Resp (Reply Bytes)
 open Exec
 
 /-- every row of the footprint table: the executor satisfies the statements for its footprint -/
-theorem table_foot : ∀ p ∈ footTable, CmdFoot p.2.1 p.2.2 :=
+theorem table_foot : ∀ p ∈ footTable, CmdFoot p.2.1 p.2.2.1 :=
   List.forall_mem_cons.mpr ⟨t_set, List.forall_mem_cons.mpr ⟨t_get, List.forall_mem_cons.mpr ⟨t_getrange, List.forall_mem_cons.mpr ⟨t_setrange, List.forall_mem_cons.mpr ⟨t_mget, List.forall_mem_cons.mpr ⟨t_mset, List.forall_mem_cons.mpr ⟨t_setex, List.forall_mem_cons.mpr ⟨t_setnx, List.forall_mem_cons.mpr ⟨t_strlen, List.forall_mem_cons.mpr ⟨t_incr, List.forall_mem_cons.mpr ⟨t_incrby, List.forall_mem_cons.mpr ⟨t_decr, List.forall_mem_cons.mpr ⟨t_decrby, List.forall_mem_cons.mpr ⟨t_incrbyfloat, List.forall_mem_cons.mpr ⟨t_append, List.forall_mem_cons.mpr ⟨t_ping, List.forall_mem_cons.mpr ⟨t_del, List.forall_mem_cons.mpr ⟨t_exists, List.forall_mem_cons.mpr ⟨t_keys, List.forall_mem_cons.mpr ⟨t_expire, List.forall_mem_cons.mpr ⟨t_persist, List.forall_mem_cons.mpr ⟨t_ttl, List.forall_mem_cons.mpr ⟨t_type, List.forall_mem_cons.mpr ⟨t_rename, List.forall_mem_cons.mpr ⟨t_publish, List.forall_mem_cons.mpr ⟨t_member, List.forall_mem_cons.mpr ⟨t_rconf, List.forall_mem_cons.mpr ⟨t_sadd, List.forall_mem_cons.mpr ⟨t_srem, List.forall_mem_cons.mpr ⟨t_sismember, List.forall_mem_cons.mpr ⟨t_scard, List.forall_mem_cons.mpr ⟨t_smembers, List.forall_mem_cons.mpr ⟨t_smove, List.forall_mem_cons.mpr ⟨t_spop, List.forall_mem_cons.mpr ⟨t_srandmember, List.forall_mem_cons.mpr ⟨t_sunion, List.forall_mem_cons.mpr ⟨t_sinter, List.forall_mem_cons.mpr ⟨t_sdiff, List.forall_mem_cons.mpr ⟨t_sunionstore, List.forall_mem_cons.mpr ⟨t_sinterstore, List.forall_mem_cons.mpr ⟨t_sdiffstore, List.forall_mem_cons.mpr ⟨t_hset, List.forall_mem_cons.mpr ⟨t_hsetnx, List.forall_mem_cons.mpr ⟨t_hget, List.forall_mem_cons.mpr ⟨t_hmget, List.forall_mem_cons.mpr ⟨t_hgetall, List.forall_mem_cons.mpr ⟨t_hkeys, List.forall_mem_cons.mpr ⟨t_hvals, List.forall_mem_cons.mpr ⟨t_hlen, List.forall_mem_cons.mpr ⟨t_hexists, List.forall_mem_cons.mpr ⟨t_hstrlen, List.forall_mem_cons.mpr ⟨t_hdel, List.forall_mem_cons.mpr ⟨t_hincrby, List.forall_mem_cons.mpr ⟨t_hincrbyfloat, List.forall_mem_cons.mpr ⟨t_hrandfield, List.forall_mem_cons.mpr ⟨t_llen, List.forall_mem_cons.mpr ⟨t_lindex, List.forall_mem_cons.mpr ⟨t_lpos, List.forall_mem_cons.mpr ⟨t_lpop, List.forall_mem_cons.mpr ⟨t_rpop, List.forall_mem_cons.mpr ⟨t_lpush, List.forall_mem_cons.mpr ⟨t_lpushx, List.forall_mem_cons.mpr ⟨t_rpush, List.forall_mem_cons.mpr ⟨t_rpushx, List.forall_mem_cons.mpr ⟨t_lset, List.forall_mem_cons.mpr ⟨t_lrem, List.forall_mem_cons.mpr ⟨t_ltrim, List.forall_mem_cons.mpr ⟨t_lrange, List.forall_mem_cons.mpr ⟨t_lmove, List.forall_mem_cons.mpr ⟨t_blpop, List.forall_mem_cons.mpr ⟨t_brpop, List.forall_mem_cons.mpr ⟨t_zadd, List.forall_mem_cons.mpr ⟨t_zrem, List.forall_mem_cons.mpr ⟨t_zrange, List.forall_mem_cons.mpr ⟨t_zrank, List.forall_mem_cons.mpr ⟨t_xadd, List.forall_mem_cons.mpr ⟨t_xrange, fun _ h => nomatch h⟩⟩⟩⟩⟩⟩⟩⟩⟩⟩⟩⟩⟩⟩⟩⟩⟩⟩⟩⟩⟩⟩⟩⟩⟩⟩⟩⟩⟩⟩⟩⟩⟩⟩⟩⟩⟩⟩⟩⟩⟩⟩⟩⟩⟩⟩⟩⟩⟩⟩⟩⟩⟩⟩⟩⟩⟩⟩⟩⟩⟩⟩⟩⟩⟩⟩⟩⟩⟩⟩⟩⟩⟩⟩⟩⟩⟩
 
 /-- `exec`'s lookup and `footprint`'s lookup select the same row -/
@@ -69,13 +72,38 @@ theorem exec_footprint (env : Env) (args : List Bytes) : FootOk (fun env db args
       refine ⟨?_, fun b => ?_⟩ <;> simp only [exec, hc]
     | some p =>
       have hc : lookupCmd (lower name) = some p.1 := by rw [lookup_link, hl]; rfl
-      have hmem : (p : Cmd × FP) ∈ footTable.map (·.2) := by
+      have hmem : (p : Cmd × FP × Refusal) ∈ footTable.map (·.2) := by
         unfold lookupFoot at hl
         obtain ⟨q, hq, rfl⟩ := Option.map_eq_some_iff.mp hl
         exact List.mem_map.mpr ⟨q, List.mem_of_find?_eq_some hq, rfl⟩
       obtain ⟨q, hq, rfl⟩ := List.mem_map.mp hmem
       refine FootOk.congr (c := q.2.1) (fun a => ?_) (table_foot q hq env (name :: rest))
       simp only [exec, hc]
+
+/-- **the same for what the driver compares the Go lock trace with**: `exec` satisfies the statements of `lockPlan env args` — the
+    footprint, or `none` when the call is refused between the arity test and the first lock (then the keyspace is not consulted) -/
+theorem exec_lockPlan (env : Env) (args : List Bytes) : FootOk (fun env db args => exec env db args) env args (lockPlan env args) := by
+  unfold lockPlan
+  split
+  · rename_i hr
+    unfold refused at hr
+    cases args with
+    | nil => cases hr
+    | cons name rest =>
+      dsimp only at hr
+      cases hl : lookupFoot (lower name) with
+      | none => rw [hl] at hr; cases hr
+      | some p =>
+        rw [hl] at hr
+        have hc : lookupCmd (lower name) = some p.1 := by rw [lookup_link, hl]; rfl
+        have hmem : (p : Cmd × FP × Refusal) ∈ footTable.map (·.2) := by
+          unfold lookupFoot at hl
+          obtain ⟨q, hq, rfl⟩ := Option.map_eq_some_iff.mp hl
+          exact List.mem_map.mpr ⟨q, List.mem_of_find?_eq_some hq, rfl⟩
+        obtain ⟨q, hq, rfl⟩ := List.mem_map.mp hmem
+        refine FootOk.congr (c := q.2.1) (fp := .none) (fun a => ?_) (table_refuse q hq env (name :: rest) hr)
+        simp only [exec, hc]
+  · exact exec_footprint env args
 
 /-! ### the statements in the words of the property -/
 
